@@ -452,6 +452,10 @@ def run_check(pid, tier, replay=None):
         # (the overlay then assigns / merges pointers instead of scalars: aliasing between stored values and published configs)
         for i, s in enumerate(scenarios):
             s["ptry"] = (i + seed) % 2 == 1
+            # a third of the scenarios: blocking reports hand over one buffer per source by pointer, rewritten in place
+            # (only with a single watching source: dials keeps the pointer it was given, so with a second source a re-stack could
+            # read the buffer while it is being rewritten - that would be the source's mistake, not the library's)
+            s["reusebuf"] = (i + seed) % 3 == 0 and len(s.get("init") or []) == 1
         events, crashes = run_scenarios(vh, scratch, scenarios, workers=12)
         violations = []
         for sc, stderr in crashes:
